@@ -466,7 +466,12 @@ class C07(E2EProp):
             if ln < 1 or ln > len(lines):
                 return "diagnostic designates line %d of %s, which has %d lines" % (ln, fname, len(lines))
             text = lines[ln - 1]
-            depth = sum(1 for l in lines[:ln - 1] if l.startswith(".#de")) - sum(1 for l in lines[:ln - 1] if l == ".#.")
+            depth = 0        # definitions do not nest: a .#de inside a definition is reported and the first .#. ends the definition
+            for l in lines[:ln - 1]:
+                if l.startswith(".#de"):
+                    depth = 1
+                elif l == ".#.":
+                    depth = 0
             if depth > 0 and text not in (".#.",) and not text.startswith(".#de"):
                 return "diagnostic designates line %d of %s, inside a macro definition (not the invocation): %s" % (ln, fname, d[:100])
             if um is not None:
@@ -491,21 +496,24 @@ class C07(E2EProp):
         if any(not (l in C07.OPEN + C07.CLOSE + C07.NEUT + [""]) for l in lines):
             return None
         inbf = False
-        for l in lines:           # a filter block holds raw text only: macros inside it are reported by design
+        for l in lines:           # a filter block holds raw text only: macros inside it (another .Bf included) are reported by design
+            if inbf and l.startswith(".") and l != ".Ef":
+                return None
             if l.startswith(".Bf"):
                 inbf = True
             elif l == ".Ef":
                 inbf = False
-            elif inbf and l.startswith("."):
-                return None
         # independent stack discipline
         stack, off = [], []
         inde = False
+        crossing = False     # markup opened by Bm spans paragraphs, not blocks: a block boundary inside it is reported by design
         for i, l in enumerate(lines, 1):
             if inde:
                 if l == ".#.":
                     inde = False
                 continue
+            if any(m == "Bm" for m, _ in stack) and (l in (".Bd", ".Ed", ".El") or l.startswith(".Bl")):
+                crossing = True
             if l == ".#de m":
                 inde = i
             elif l in (".Bd", ".Bm", ".Bf -f xhtml", ".#if 1") or l.startswith(".Bl"):
@@ -520,7 +528,7 @@ class C07(E2EProp):
                     stack.pop()
             elif l == ".#.":
                 off.append(("#.", i))
-        quietly_balanced = not off and not stack and not inde
+        quietly_balanced = not off and not stack and not inde and not crossing
         balance_diag = [d for d in a[2] if re.search(r"isn't closed|no corresponding|without previous|unclosed|End Of File", d)]
         if quietly_balanced and balance_diag and ".It x" not in lines and ".Ch C" not in lines and ".P" not in lines:
             return "balanced document reported: %s" % balance_diag[0][:120]
@@ -1016,21 +1024,33 @@ class C14(E2EProp):
                 return "spine idref %r has no manifest item" % s
         return None
 
+    PRE = [".X set document-title T\n.X set epub-uuid u\n", ".X set document-title T\n.X set epub-uuid u\n.X set epub-version 2\n",
+           ".X set document-title T\n.X set epub-uuid u\n.X set xhtml-chap-custom-filenames 1\n.X set xhtml-chap-prefix pre\n"]
+    # the cover page and a user stylesheet are not modelled (DESIGN 0.1): their documents go to an implementation-only stream
+    PRE_COVER = ".X set document-title T\n.X set epub-uuid u\n.X set epub-css i.png\n.X set epub-cover img.png\n"
+
     def plan(self, tier, rng):
         n = T(tier, 3, 4)
-        pre = [".X set document-title T\n.X set epub-uuid u\n", ".X set document-title T\n.X set epub-uuid u\n.X set epub-version 2\n",
-               ".X set document-title T\n.X set epub-uuid u\n.X set xhtml-chap-custom-filenames 1\n.X set xhtml-chap-prefix pre\n", ".X set document-title T\n.X set epub-uuid u\n.X set epub-css i.png\n.X set epub-cover img.png\n"]
+        pre = self.PRE
         cases = []
         for k in range(0, n + 1):
             for s in itertools.product(self.FAM, repeat=k):
                 for p in (pre if k <= 2 else [pre[(len(cases)) % len(pre)]]):
                     cases.append(e2e.case_of("e3", p + e2e.doc_of(list(s))))
         if tier == Q:
-            cases = cases[:: 2]
-        return [("S-e2e-epub", cases, "EPUB trees for all sequences <= %d over parts, chapters, images, Tc x {epub 3, epub 2, custom file names + prefix, css + cover}" % n)]
+            cases = cases[:: 2] + cases[1:: 6]
+        return [("S-e2e-epub", cases, "EPUB trees for all sequences <= %d over parts, chapters, images, Tc x {epub 3, epub 2, custom file names + prefix}" % n)]
+
+    def cover_stream(self, tier):
+        n = T(tier, 2, 3)
+        cases = [e2e.case_of("e3", self.PRE_COVER + e2e.doc_of(list(s))) for k in range(0, n + 1) for s in itertools.product(self.FAM, repeat=k)]
+        st = e2e.E2EStream("S-e2e-epub-cover", "e2e", cases, oracle=self.oracle, exhaustive=True, nontrivial=nontrivial,
+                           describe="the same with a cover image and a user stylesheet (not modelled): implementation side and oracle only")
+        st.impl_only = True
+        return st
 
     def streams(self, tier, rng):
-        return super().streams(tier, rng) + [zip_stream(tier, rng)]
+        return super().streams(tier, rng) + [self.cover_stream(tier), zip_stream(tier, rng)]
 
 
 def zip_stream(tier, rng):
